@@ -302,6 +302,178 @@ def run_resolver(prop, tier, seed, keep=False):
     return rc
 
 
+# --------------------------------------------------------------------------- graph layer (C18, C19, C20)
+
+
+def generic_trace_validate(w, prop, module, invariants, constants, trace_file, ev, is_start, label):
+    """Trace validation for the graph-layer specs: one TLC run, first violation reported with the
+    execution (graph / history) it belongs to cut out of the ndjson file."""
+    lines = open(w.path(trace_file)).read().splitlines()
+    cfg = write_cfg(w, "T_%s_%s.cfg" % (prop, label), "Spec", invariants, constants=dict(constants, TraceFile='"%s"' % trace_file))
+    res = w.tlc(module, cfg, workers=1, timeout=3000)
+    ev.add_tlc(label, res, "trace_validation")
+    nstart = sum(1 for x in lines if is_start(x))
+    if res["violated"]:
+        line, _ = vlib.last_alias_state(res["out"])
+        if line is None:
+            raise Infra("cannot locate the violating state:\n" + res["out"][-3000:])
+        i = max(0, line - 2)
+        while i > 0 and not is_start(lines[i]):
+            i -= 1
+        j = i + 1
+        while j < len(lines) and not is_start(lines[j]):
+            j += 1
+        os.makedirs(vlib.REPLAYS, exist_ok=True)
+        rp = os.path.join(vlib.REPLAYS, "%s-%s.json" % (prop, vlib.sha("".join(lines[i:j]))))
+        vlib.write_json(rp, {"property": prop, "invariant": res["violated"][0], "spec": module, "constants": constants,
+                             "events": [json.loads(x) for x in lines[i:min(j, line)]], "trace_line": line, "seed": ev.doc["seed"]})
+        ev.doc["violations"] += 1
+        ev.cov["traces_validated_against_impl"] += nstart
+        print("VIOLATION property=%s replay=%s" % (prop, rp), flush=True)
+        return 1
+    if res["ok"] and not res["post_false"]:
+        ev.cov["traces_validated_against_impl"] += nstart
+        ev.cov["evaluations"] += len(lines)
+        return 0
+    raise Infra("trace validation did not complete:\n" + res["out"][-3000:])
+
+
+def exhaustive(w, prop, module, cfgname, spec, invariants, constants, ev, label, props=None, view=None, timeout=2400, extra_cfg=""):
+    extra = ("VIEW " + view) if view else ""
+    write_cfg(w, cfgname, spec, invariants, constants=constants, post=None, alias=None, props=props, extra=(extra + "\n" + extra_cfg).strip())
+    res = w.tlc(module, cfgname, workers=vlib.NCPU, timeout=timeout)
+    ev.add_tlc(label, res, "model_checking")
+    if res["violated"] or res["prop_violated"]:
+        # a design-level counterexample of the algorithm model: not an observation of the real code
+        ev.cov["unreproduced_model_cex"] = res["violated"] + res["prop_violated"]
+        ev.write()
+        raise Infra("%s: the design-level model violates %s:\n%s" % (prop, res["violated"] + res["prop_violated"], res["out"][-2500:]))
+    if not res["ok"]:
+        raise Infra("%s: model checking did not complete:\n%s" % (prop, res["out"][-3000:]))
+    return res
+
+
+def run_c19(tier, seed, keep=False):
+    ev = Evidence("C19", tier, seed)
+    q = tier == "quick"
+    gconst = {"Keys": '{"a","b","c"}', "Vers": "{1,2}", "Weights": "{1,2,3}", "MaxHandles": "3"}
+    with Work(keep) as w:
+        w.build()
+        # (1) design: every history of bounded length, all invariants and action properties
+        exhaustive(w, "C19", "MC_GraphADT.tla", "MC_G.cfg", "MSpec", ["Mirror", "EdgesAmongPresent", "DomAgree", "ReverseTwice"],
+                   dict(gconst, Weights="{1,2}", MaxHandles="2" if q else "3", MaxOps="5" if q else "6"), ev, "graphadt-exhaustive",
+                   props=["CopyFresh"], view="MView")
+        # (2) specification -> implementation: behaviours generated by TLC, replayed on real Graph values
+        # (TLC evaluates EmitHist on every candidate successor, so each simulated behaviour yields one history per
+        #  possible last operation)
+        write_cfg(w, "SIM_G.cfg", "MSpec", ["Mirror", "EdgesAmongPresent", "DomAgree", "ReverseTwice", "EmitHist"],
+                  constants=dict(gconst, MaxOps="14"), post=None, alias=None)
+        sim = w.tlc("MC_GraphADT.tla", "SIM_G.cfg", workers=1, timeout=600,
+                    simulate="num=%d" % (40 if q else 500), extra=["-depth", "15", "-seed", str(seed)])
+        ev.add_tlc("graphadt-simulation", sim, "simulation")
+        import re
+        hists = []
+        for ln in sim["out"].splitlines():
+            m = re.match(r'<<"HIST", "(.*)">>$', ln.strip())
+            if m:
+                hists.append(json.loads(json.loads('"' + m.group(1) + '"')))
+        if not hists:
+            raise Infra("TLC generated no histories:\n" + sim["out"][-2000:])
+        vlib.write_json(w.path("hist.json"), hists)
+        # (3) implementation -> specification: seeded random histories from the harness, longer and with 4 keys
+        r = w.run_drive(["graph-hist", "-n", "0", "-in", "hist.json", "-out", "g_tlc.ndjson"])
+        log(r.stderr.strip())
+        r = w.run_drive(["graph-hist", "-n", str(300 if q else 3000), "-len", "40", "-seed", str(seed), "-out", "g_rand.ndjson"])
+        log(r.stderr.strip())
+        r = w.run_drive(["graph-hist", "-n", str(100 if q else 1500), "-len", "60", "-keys", "4", "-handles", "4", "-seed", str(seed + 7), "-out", "g_rand4.ndjson"])
+        isstart = lambda x: x.startswith('{"op":"reset"')
+        inv = ["Conforms", "ApiMirror", "Mirror", "EdgesAmongPresent", "DomAgree", "ReverseTwice"]
+        rc = generic_trace_validate(w, "C19", "GraphTrace.tla", inv, gconst, "g_tlc.ndjson", ev, isstart, "tlc-generated-histories")
+        rc = rc or generic_trace_validate(w, "C19", "GraphTrace.tla", inv, gconst, "g_rand.ndjson", ev, isstart, "random-histories")
+        rc = rc or generic_trace_validate(w, "C19", "GraphTrace.tla", inv, dict(gconst, Keys='{"a","b","c","d"}', MaxHandles="4"),
+                                          "g_rand4.ndjson", ev, isstart, "random-histories-4keys")
+        ev.cov["exhaustive"] = True
+        ev.cov["distinct_nontrivial"] = len(hists)
+        ev.cov["rule"] = ("exhaustive TLC exploration of all operation histories up to the bound; TLC-simulated histories (%d) replayed on real "
+                          "Graph values and seeded random histories, every operation followed by a dump of all three maps of every handle; "
+                          "distinct_nontrivial = number of TLC-generated histories replayed" % len(hists))
+        ev.sample({"history": hists[0][:8]})
+        ev.doc["assumptions"] = ["the verif-tagged accessor VerifDump returns the graph's internal maps unmodified",
+                                 "AddEdge is only issued when both endpoints are present (documented precondition)"]
+        ev.write()
+    return rc
+
+
+def run_c18(tier, seed, keep=False):
+    ev = Evidence("C18", tier, seed)
+    q = tier == "quick"
+    with Work(keep) as w:
+        w.build()
+        exhaustive(w, "C18", "Dijkstra.tla", "MC_D.cfg", "DSpec", ["C18Model", "PopsAreSettled"],
+                   {"N": "3", "WSet": "{0, 1}" if q else "{0, 1, 2}"}, ev, "dijkstra-all-3-vertex-digraphs")
+        rc = 0
+        jobs = [(3, ["-mode", "all", "-weights", "1", "-reps", "2" if q else "6"], "all-digraphs-3"),
+                (3, ["-mode", "random", "-count", "1500" if q else "20000", "-maxw", "2", "-density", "0.5", "-reps", "2"], "random-3"),
+                (5, ["-mode", "random", "-count", "1200" if q else "12000", "-reps", "2"], "random-5"),
+                (7, ["-mode", "random", "-count", "600" if q else "6000", "-reps", "2", "-density", "0.3"], "random-7")]
+        if not q:
+            jobs.append((3, ["-mode", "all", "-weights", "0,2", "-reps", "1"], "all-digraphs-3-w02"))
+            jobs.append((9, ["-mode", "random", "-count", "2000", "-reps", "2", "-density", "0.25", "-maxw", "6"], "random-9"))
+        for n, args, label in jobs:
+            out = "d_%s.ndjson" % label
+            r = w.run_drive(["dijkstra", "-n", str(n), "-seed", str(seed), "-out", out] + args)
+            log(r.stderr.strip())
+            rc = rc or generic_trace_validate(w, "C18", "DijkstraTrace.tla", ["PopsLegal", "ResultIsSpecState", "C18"],
+                                              {"N": str(n), "WSet": "{0}"}, out, ev, lambda x: x.startswith('{"ev":"graph"'), label)
+            if rc:
+                break
+        ev.cov["exhaustive"] = True
+        ev.cov["distinct_nontrivial"] = ev.cov["traces_validated_against_impl"]
+        ev.cov["rule"] = ("model: every digraph on 3 vertices (self-loops included) over the weight set, every source, every tie-break; "
+                          "real code: all 512 digraphs on 3 vertices plus seeded random graphs with 3-9 vertices built in random insertion "
+                          "orders; one trace = graph, pop sequence (hook), returned maps and EdgeToPath of every vertex")
+        if os.path.exists(w.path("d_random-5.ndjson")):
+            ev.sample([json.loads(x) for x in open(w.path("d_random-5.ndjson")).read().splitlines()[:7]])
+        ev.doc["assumptions"] = ["the verif-tagged pop hook reports each vertex taken off the queue with its distance",
+                                 "int32 arithmetic is modelled at a reduced scale that preserves the order of all compared values"]
+        ev.write()
+    return rc
+
+
+def run_c20(tier, seed, keep=False):
+    ev = Evidence("C20", tier, seed)
+    q = tier == "quick"
+    with Work(keep) as w:
+        w.build()
+        exhaustive(w, "C20", "Traversal.tla", "MC_T.cfg", "Spec", ["DFSOk", "KahnOk", "SCCOk"],
+                   {"N": "3", "defaultInitValue": "0"}, ev, "traversal-all-3-vertex-digraphs")
+        rc = 0
+        jobs = [(3, ["-mode", "all", "-reps", "2" if q else "8"], "all-digraphs-3"),
+                (4, ["-mode", "random", "-count", "1200" if q else "15000", "-reps", "2"], "random-4"),
+                (6, ["-mode", "random", "-count", "600" if q else "8000", "-reps", "2", "-density", "0.25"], "random-6")]
+        if not q:
+            jobs.append((4, ["-mode", "all", "-reps", "1"], "all-digraphs-4"))
+            jobs.append((8, ["-mode", "random", "-count", "3000", "-reps", "2", "-density", "0.2"], "random-8"))
+        for n, args, label in jobs:
+            out = "t_%s.ndjson" % label
+            r = w.run_drive(["trav", "-n", str(n), "-seed", str(seed), "-out", out] + args)
+            log(r.stderr.strip())
+            rc = rc or generic_trace_validate(w, "C20", "TravTrace.tla", ["DFSOk", "KahnOk", "SCCOk", "TopoOk"],
+                                              {"N": str(n)}, out, ev, lambda x: x.startswith('{"ev":"trav"'), label)
+            if rc:
+                break
+        ev.cov["exhaustive"] = True
+        ev.cov["distinct_nontrivial"] = ev.cov["traces_validated_against_impl"]
+        ev.cov["rule"] = ("model: PlusCal versions of DFS / KahnSort / StronglyConnected on all 512 digraphs on 3 vertices x all decline "
+                          "sets x all starts x all iteration orders; real code: the same 512 digraphs (every decline set, every start) and "
+                          "seeded random graphs (half of them DAGs) with 4-8 vertices; one trace line = all four routines on one graph")
+        if os.path.exists(w.path("t_random-4.ndjson")):
+            ev.sample(json.loads(open(w.path("t_random-4.ndjson")).readline()))
+        ev.doc["assumptions"] = ["the driver's DFS callback declines exactly for the vertices of the chosen set"]
+        ev.write()
+    return rc
+
+
 # --------------------------------------------------------------------------- replay
 
 
@@ -352,7 +524,7 @@ def main():
         return 2
 
 
-EXTRA = {}
+EXTRA = {"C18": run_c18, "C19": run_c19, "C20": run_c20}
 
 if __name__ == "__main__":
     sys.exit(main())
